@@ -61,6 +61,12 @@ def directed(rng: random.Random) -> dict:
         g.map_cfg = rng.choice(g.MAPS)
         body += [{"k": "map", "args": dict(m)} for m in g.map_cfg]
     ram = [0x7E0000, 0x7E2000, 0x7FFFF0]
+    if rom == "map":
+        for m_ in g.map_cfg:
+            if m_.get("writable"):
+                for rr in (m_["bank_range"], m_.get("mirror_bank_range")):
+                    if rr:
+                        ram += [(rr[0] << 16) | (m_["addr_range"][0] + 0x10), (rr[1] << 16) | (m_["addr_range"][0] + 0x1234)]
     body.append({"k": "org", "e": E(g.rom_addr())})
     for _ in range(rng.randint(3, 12)):
         c = rng.random()
@@ -75,6 +81,18 @@ def directed(rng: random.Random) -> dict:
         else:
             n = "lb%d" % len(body)
             body += [{"k": "label", "n": n}, {"k": "data", "d": "dl", "es": [E(n)]}]
+    if rom == "map" and rng.random() < 0.2:
+        # a position in a bank the .map lines do not describe (the stock mappings would know it): nothing may be written for it
+        covered = set()
+        for m_ in g.map_cfg:
+            for rr in (m_["bank_range"], m_.get("mirror_bank_range")):
+                if rr:
+                    covered |= set(range(rr[0], rr[1] + 1))
+        free = [b for b in (0x00, 0x01, 0x3F, 0x40, 0x80, 0x81, 0xC0, 0xFF, 0x6F, 0x70) if b not in covered]
+        if free:
+            body.insert(rng.randint(2, len(body)), {"k": "org", "e": E((rng.choice(free) << 16) | 0x8000)})
+            body.append({"k": "data", "d": "db", "es": [E(0x5A)]})
+            return {"prog": body, "files": {}, "tables": {}, "rom": rom, "family": "directed:undescribed-bank"}
     return {"prog": body, "files": {}, "tables": {}, "rom": rom, "family": "directed:moves"}
 
 
@@ -124,6 +142,10 @@ def check_program(res: Res, p: dict) -> None:
             res.violate("wrong-offset" if "file offset" in d else "blocks-differ", f"reference assembler: {d}", wit)
     elif isinstance(m, Reject):
         res.count("model_rejects_a816_accepts")
+        if "is in an unmapped bank" in str(m) and any(len(b) for _, b in r.blocks):
+            # bytes were handed to the writer although the program places code in a bank the mapping in effect does not describe:
+            # no offset of that mapping stands for them
+            res.violate("unmapped-address-written", f"the program was assembled and written ({[(hex(a), len(b)) for a, b in r.blocks][:5]}) although {m}", wit)
     else:
         res.count("model_unspecified")
 
